@@ -106,6 +106,7 @@ impl<H: Hasher> BatchMerkleProof<H> {
     /// * Any of the specified `indexes` is greater than or equal to the number of leaves in the
     ///   tree for which this batch proof was generated.
     /// * List of indexes contains duplicates.
+    /// * The number of `leaves` is different from the number of `indexes`.
     /// * The proof does not resolve to a single root.
     pub fn get_root(
         &self,
@@ -114,6 +115,11 @@ impl<H: Hasher> BatchMerkleProof<H> {
     ) -> Result<H::Digest, MerkleTreeError> {
         if indexes.is_empty() {
             return Err(MerkleTreeError::TooFewLeafIndexes);
+        }
+        // exactly one leaf per index: leaves which are not bound to any index would otherwise be
+        // ignored, and a proof carrying such extra leaves would still resolve to the root
+        if leaves.len() != indexes.len() {
+            return Err(MerkleTreeError::InvalidProof);
         }
 
         let mut buf = [H::Digest::default(); 2];
